@@ -467,7 +467,24 @@ func (c *Ctx) fold(cond ssa.Value) (bool, bool) {
 	} else {
 		return false, false
 	}
-	if _, isC := other.(*ssa.Const); isC || cst.Value == nil {
+	if _, isC := other.(*ssa.Const); isC {
+		return false, false
+	}
+	if cst.Value == nil {
+		// comparison with nil: decided by an assumption "x = nil" / "x != nil"
+		for _, a := range c.Assume {
+			if a.Value != "nil" || a.ProvPat == "" || !prov.Match(a.ProvPat, prov.Of(other)) {
+				continue
+			}
+			res := !a.NotEqual // x == nil ?
+			if b.Op == token.NEQ {
+				res = !res
+			}
+			if neg {
+				res = !res
+			}
+			return res, true
+		}
 		return false, false
 	}
 	cv := strings.TrimPrefix(prov.Of(cst), "const:")
@@ -1383,6 +1400,14 @@ func (c *Ctx) evalInt(v ssa.Value, d int) (constant.Value, bool) {
 		switch x.Op {
 		case token.ADD, token.SUB, token.MUL, token.AND, token.OR:
 			return constant.BinaryOp(l, x.Op, r), true
+		case token.QUO:
+			if constant.Sign(r) != 0 {
+				return constant.BinaryOp(l, token.QUO_ASSIGN, r), true // integer division, truncated
+			}
+		case token.REM:
+			if constant.Sign(r) != 0 {
+				return constant.BinaryOp(l, token.REM, r), true
+			}
 		case token.SHL, token.SHR:
 			if s, ok := constant.Uint64Val(r); ok && s < 128 {
 				return constant.Shift(l, x.Op, uint(s)), true
@@ -1390,4 +1415,133 @@ func (c *Ctx) evalInt(v ssa.Value, d int) (constant.Value, bool) {
 		}
 	}
 	return nil, false
+}
+
+// succsUnder: the successors of b that are feasible under the assumptions.
+func (c *Ctx) succsUnder(b *ssa.BasicBlock) []*ssa.BasicBlock {
+	if ifi, ok := b.Instrs[len(b.Instrs)-1].(*ssa.If); ok {
+		if v, known := c.fold(ifi.Cond); known {
+			if v {
+				return b.Succs[:1]
+			}
+			return b.Succs[1:]
+		}
+	}
+	return b.Succs
+}
+
+// Reaches: instruction to can execute after instruction from on some path
+// feasible under the assumptions.
+func (c *Ctx) Reaches(from, to ssa.Instruction) bool {
+	if from.Block() == to.Block() {
+		fi, ti := -1, -1
+		for i, in := range from.Block().Instrs {
+			if in == from {
+				fi = i
+			}
+			if in == to {
+				ti = i
+			}
+		}
+		if fi < ti {
+			return true
+		}
+	}
+	seen := map[*ssa.BasicBlock]bool{}
+	stack := append([]*ssa.BasicBlock{}, c.succsUnder(from.Block())...)
+	for len(stack) > 0 {
+		b := stack[len(stack)-1]
+		stack = stack[:len(stack)-1]
+		if seen[b] {
+			continue
+		}
+		seen[b] = true
+		if b == to.Block() {
+			return true
+		}
+		stack = append(stack, c.succsUnder(b)...)
+	}
+	return false
+}
+
+// WithInstrIn returns a copy of g that additionally requires extra(in).
+func (g Gate) WithInstrIn(extra func(ssa.Instruction) bool) Gate {
+	old := g.Instr
+	g.Instr = func(in ssa.Instruction) bool { return old != nil && old(in) && extra(in) }
+	return g
+}
+
+// EvalValue evaluates integer value v of fn under the assumptions; a phi is
+// resolved when exactly one of its incoming edges is feasible.
+func (c *Ctx) EvalValue(fn *ssa.Function, v ssa.Value) (string, bool) {
+	reach := map[*ssa.BasicBlock]bool{}
+	for _, b := range c.ReachableBlocks(fn) {
+		reach[b] = true
+	}
+	var ev func(v ssa.Value, d int) (constant.Value, bool)
+	ev = func(v ssa.Value, d int) (constant.Value, bool) {
+		if d > 10 {
+			return nil, false
+		}
+		if ph, ok := v.(*ssa.Phi); ok {
+			var got constant.Value
+			n := 0
+			for i, ed := range ph.Edges {
+				pb := ph.Block().Preds[i]
+				if !reach[pb] {
+					continue
+				}
+				feasible := false
+				for _, s := range c.succsUnder(pb) {
+					if s == ph.Block() {
+						feasible = true
+					}
+				}
+				if !feasible {
+					continue
+				}
+				val, ok := ev(ed, d+1)
+				if !ok {
+					return nil, false
+				}
+				if n > 0 && !constant.Compare(got, token.EQL, val) {
+					return nil, false
+				}
+				got = val
+				n++
+			}
+			return got, n > 0
+		}
+		if av, ok := c.assumedInt(v); ok {
+			return av, true
+		}
+		switch x := v.(type) {
+		case *ssa.Const:
+			if x.Value != nil && x.Value.Kind() == constant.Int {
+				return x.Value, true
+			}
+		case *ssa.Convert:
+			return ev(x.X, d+1)
+		case *ssa.BinOp:
+			l, ok1 := ev(x.X, d+1)
+			r, ok2 := ev(x.Y, d+1)
+			if !ok1 || !ok2 {
+				return nil, false
+			}
+			switch x.Op {
+			case token.ADD, token.SUB, token.MUL:
+				return constant.BinaryOp(l, x.Op, r), true
+			case token.QUO:
+				if constant.Sign(r) != 0 {
+					return constant.BinaryOp(l, token.QUO_ASSIGN, r), true
+				}
+			}
+		}
+		return nil, false
+	}
+	val, ok := ev(v, 0)
+	if !ok {
+		return "", false
+	}
+	return val.ExactString(), true
 }
